@@ -48,6 +48,9 @@ func (sp ByteSlicePool) Get(capacity int) []byte {
 		return make([]byte, 0, capacity)
 	}
 	buf := bp.([]byte)
+	// Zero the whole array, not just the length the slice had when it was put back:
+	// the next user can reach every byte up to the capacity (Resize re-slices within it)
+	buf = buf[:cap(buf)]
 	// This will be optimized by the compiler
 	for i := range buf {
 		buf[i] = 0
